@@ -149,6 +149,45 @@ func Check(prop, tier string) int {
 	if ran == 0 {
 		common.Infra("no case ran")
 	}
+	// C18: histories over evolving GENERATED modules (rich, realistic stale outputs)
+	if prop == "C18" {
+		ne := 30
+		if tier == "thorough" {
+			ne = 600
+		}
+		ne = common.CasesOverride(ne)
+		type eres struct {
+			c   *EvolveCase
+			out *Outcome
+		}
+		eresults := common.ParallelMap(ne, common.Workers(), func(i int) eres {
+			if deadline.Passed() {
+				return eres{}
+			}
+			c := GenEvolveCase(common.Rng(seed^0xe701, i))
+			dir := filepath.Join(scratch, fmt.Sprintf("e%d", i))
+			os.MkdirAll(dir, 0777)
+			defer os.RemoveAll(dir)
+			return eres{c, e.RunEvolveCase(c, dir)}
+		})
+		for i, r := range eresults {
+			if r.c == nil {
+				continue
+			}
+			if r.out.Infra != "" {
+				writeEvidence(e, prop, tier, seed, start, ran, steps, samples, 0, "infrastructure trouble: "+r.out.Infra)
+				common.Infra("evolve case %d: %s", i, r.out.Infra)
+			}
+			ran++
+			steps += r.out.Steps
+			if i == 0 {
+				samples = append(samples, map[string]interface{}{"evolving_generated_module_case": i, "injectors_before": len(r.c.Before.Injectors), "injectors_after": len(r.c.After.Injectors), "packages": len(r.c.After.Pkgs), "second_gen_iteration": r.c.Iter, "log": r.out.Log})
+			}
+			for _, v := range r.out.Verdicts {
+				found = append(found, common.Found{Verdict: v, Index: 300000 + i, Case: r.c, Trace: r.out.Log})
+			}
+		}
+	}
 	// C19: model-based check of `wire show` on generated modules, under several iteration schedules
 	if prop == "C19" {
 		ns := 40
@@ -252,6 +291,19 @@ func Check(prop, tier string) int {
 			continue
 		}
 		seen[k] = true
+		if ec, ok := f.Case.(*EvolveCase); ok {
+			if common.KnownOpen(findings, prop, k) == nil {
+				dir, _ := os.MkdirTemp(scratch, "evolverep-")
+				o := e.RunEvolveCase(ec, dir)
+				os.RemoveAll(dir)
+				if hasKey(o.Verdicts, prop, k) == nil {
+					writeEvidence(e, prop, tier, seed, start, ran, steps, samples, 0, "a violation did not reproduce")
+					common.Infra("evolve violation %s did not reproduce when re-run: harness nondeterminism", k)
+				}
+			}
+			reps = append(reps, f)
+			continue
+		}
 		if ac, ok := f.Case.(*AgreeCase); ok {
 			if common.KnownOpen(findings, prop, k) == nil {
 				dir, _ := os.MkdirTemp(scratch, "agreerep-")
@@ -360,7 +412,10 @@ func Replay(r *common.Replay) int {
 	if len(c.Pkgs) == 0 {
 		var ac AgreeCase
 		var sc ShowCase
-		if err := json.Unmarshal(r.Case, &ac); err == nil && ac.Module != nil && ac.Agree {
+		var ec EvolveCase
+		if err := json.Unmarshal(r.Case, &ec); err == nil && ec.Evolve && ec.Before != nil {
+			out = e.RunEvolveCase(&ec, dir)
+		} else if err := json.Unmarshal(r.Case, &ac); err == nil && ac.Module != nil && ac.Agree {
 			out = e.RunAgreeCase(&ac, dir)
 		} else if err := json.Unmarshal(r.Case, &sc); err == nil && sc.Module != nil {
 			out = e.RunShowCase(&sc, dir)
